@@ -31,12 +31,17 @@ impl VRegister {
         pos as Reg
     }
     pub fn add_newvalue_range(&mut self, v: &Arc<mir::Value>, size: u64) -> Reg {
+        self.add_newvalue_range_from(v, size, 0)
+    }
+    /// Same as `add_newvalue_range`, but never places the value below `floor`.
+    pub fn add_newvalue_range_from(&mut self, v: &Arc<mir::Value>, size: u64, floor: Reg) -> Reg {
         let pos = self
             .0
             .iter()
             .max_by_key(|(_v, MemoryRegion(address, size))| address + size)
             .map(|(_, MemoryRegion(address, size))| address + size)
-            .unwrap_or(0);
+            .unwrap_or(0)
+            .max(floor);
         self.0.insert(v.clone(), MemoryRegion(pos, size as _));
         log::trace!("add_range {:#?}", self.0);
         pos as Reg
@@ -305,6 +310,15 @@ impl ByteCodeGenerator {
         });
 
         let staged: Vec<(TypeSize, Reg, TypeSize)> = if has_overlap {
+            // The argument sources were already released from the register map by
+            // `find` above, so the allocator alone could hand out a temporary on top
+            // of a source that has not been copied yet. Keep the temporaries above
+            // every source and destination word of this call.
+            let floor = placements
+                .iter()
+                .map(|(dst, src, size)| (*dst).max(*src) + *size)
+                .max()
+                .unwrap_or(0);
             placements
                 .iter()
                 .enumerate()
@@ -313,7 +327,7 @@ impl ByteCodeGenerator {
                     let tmp = self
                         .vregister
                         .get_top()
-                        .add_newvalue_range(&temp_key, *size as u64);
+                        .add_newvalue_range_from(&temp_key, *size as u64, floor);
                     match size {
                         0 => unreachable!(),
                         1 => bytecodes_dst.push(VmInstruction::Move(tmp, *src)),
